@@ -320,8 +320,16 @@ def rule_transition(ctx: Ctx, clause: str):
             exit0 = ast.dump(flow.pat(f"{prev}.exit({nxt}, {sim}, {env})[0]"))
             enter0 = ast.dump(flow.pat(f"{nxt}.enter({prev}.exit({nxt}, {sim}, {env})[1], {env})[0]"))
             tested = (exit0, False) in facts and (enter0, False) in facts
+            # ... and the state slots too: an exit that REFUSES hands back (None, None); entering the next activity with that None is not a
+            # rejection but a crash (or, with a fallback, an entry that skipped the exit)
+            exit1 = ast.dump(flow.pat(f"{prev}.exit({nxt}, {sim}, {env})[1]"))
+            enter1 = ast.dump(flow.pat(f"{nxt}.enter({prev}.exit({nxt}, {sim}, {env})[1], {env})[1]"))
+
+            def present(slot):
+                return (slot, True) in facts or any(flow.is_syn(a, "$isnone") and ast.dump(a.args[0]) == slot and pol is False for a, pol in p.facts())
+            tested = tested and present(exit1) and present(enter1)
             n_ok += 1
-            ctx.check(good and tested, clause, "TS.transition", "transition_previous_to_next success = enter(exit(sim)) with both errors tested",
+            ctx.check(good and tested, clause, "TS.transition", "transition_previous_to_next success = enter(exit(sim)) with both errors and both state slots tested",
                       fn, p.end,
                       why_ok="returned state is next.enter(prev.exit(next, sim, env).state, env).state; both error slots tested falsy on the path",
                       why_bad=f"success path returns {flow.dump(v)[:200]} under [{p.cond_text()[:300]}]",
